@@ -636,9 +636,9 @@ impl World for Holding {
 
 pub fn run(tier: Tier, seed: u64, known: &KnownFindings) -> CheckReport {
     let mk = |batch: &'static str, runs: u64| BatchConfig { check_id: "C02", batch, base_seed: seed, tier, runs, threads: threads(), known, samples: 1 };
-    let b1 = run_batch(&Guards, &mk("guard-histories", tier.pick(60_000, 3_000_000)));
-    let b2 = run_batch(&Multi, &mk("multi-borrow", tier.pick(1_500, 60_000)));
-    let b3 = run_batch(&Holding, &mk("nested-holding", tier.pick(30_000, 1_500_000)));
+    let b1 = run_batch(&Guards, &mk("guard-histories", tier.pick(600_000, 8_000_000)));
+    let b2 = run_batch(&Multi, &mk("multi-borrow", tier.pick(8_000, 100_000)));
+    let b3 = run_batch(&Holding, &mk("nested-holding", tier.pick(250_000, 3_000_000)));
     CheckReport {
         property_id: "C02".into(),
         tier,
